@@ -7,7 +7,7 @@ import shutil
 import sys
 import tempfile
 
-from core import Check, run_check
+from core import Check, run_check, watchdog
 import gen
 
 
@@ -109,7 +109,8 @@ def c14(ck, tmp):
             g = GFA(gfa)
             for s in strs:
                 try:
-                    impl.append(g.extract_path(s))
+                    with watchdog(20):
+                        impl.append(g.extract_path(s))
                 except BaseException:  # noqa
                     impl.append(None)
         except BaseException as e:  # noqa
@@ -221,18 +222,20 @@ def run_algos(ck, text, ids, rng, tmp, tag):
     impl = {}
     try:
         g = GFA(gfa, low_memory=True)
-        comps = g.all_components()
-        impl["components"] = [sorted(c) for c in comps]
-        impl["dfs"] = [g.dfs(s) for s in starts]
+        with watchdog(60):
+            comps = g.all_components()
+            impl["components"] = [sorted(c) for c in comps]
+            impl["dfs"] = [g.dfs(s) for s in starts]
         flags_reset = all(not n.visited for n in g.nodes.values())
         connected = len(comps) == 1 and len(ids) >= 2
         if connected:
-            c, a = g.biccs()
+            with watchdog(60):
+                c, a = g.biccs()
             impl["biccs"] = {"comps": [sorted(x) for x in c], "aps": sorted(a)}
         else:
             impl["biccs"] = None
     except BaseException as e:  # noqa
-        ck.violation("graph primitive crashed: %s: %s" % (type(e).__name__, e), {"gfa": text})
+        ck.violation("graph primitive crashed or did not terminate: %s: %s" % (type(e).__name__, e), {"gfa": text})
         return
     PENDING_ALGOS.append(({"op": "graph.algos", "gfa": tok, "starts": starts, "impl": impl}, text, ids, starts, impl, flags_reset, tag))
     if len(PENDING_ALGOS) >= 400:
